@@ -456,11 +456,13 @@ NeverFails == ~FailedOf(tab)
 
 (* TODO-KNOWN-FINDING (spec/store/NOTES.md C24-F1, C24-F2): the two ways the pinned code is known to    *)
 (* refuse to reopen.  F1: more items hidden than stored (virtualTail written without fsync by           *)
-(* TruncateTail survives while the unflushed index entries do not) - newTable fails with EOF.           *)
+(* TruncateTail survives while the unflushed index entries do not) - newTable fails with EOF; or, with  *)
+(* the loss in another table, the common head falls below a table's tail and Freezer.repair fails with *)
+(* "truncation below tail".                                                                             *)
 (* F2: a table that is not prunable is left with 0 items while another table has items (first          *)
 (* SyncAncient or TruncateHead(0) interrupted); Freezer.repair takes it for a freshly added table,     *)
 (* fast-forwards it with truncateTail and then panics on its non-zero tail.                            *)
-KnownF1(tb) == \E t \in Tables : tb[t].failed /\ Hidden(tb[t]) > Items(tb[t])
+KnownF1(tb) == \E t, u \in Tables : tb[t].failed /\ Hidden(tb[t]) > Items(tb[u])   \* u = t: EOF; u # t: "truncation below tail"
 KnownF2(tb) == \E t \in Tables : tb[t].failed /\ GroupOf[t] = "" /\ Hidden(tb[t]) # 0
 FailsOnlyKnown == FailedOf(tab) => KnownF1(tab) \/ KnownF2(tab)
 Aligned == Settled => AlignedOf(tab)
